@@ -97,6 +97,30 @@ PENDING = "check not built yet in this round (see DESIGN.md §3 for the planned 
 
 props = [json.loads(l) for l in open('/verif/properties.jsonl')]
 checks, na = [], []
+
+# clauses added after the first manifest (rules written while triaging seeded breakages and leads), appended to the text
+EXTRA = {
+ "C01": "Also: the boolean verdict of every verifier call made by client code is branched on before the call repeats, before success and before SetState.",
+ "C02": "Also: the (id, accumulated hash) pairs of the precommit and commit frontiers are stored together on every path; the TxReader hands out a tx only across the Alh chain comparison in both scan directions; sync holds the commit-state lock over flush, fsync and commit-log append.",
+ "C03": "Also: commit waiters are released up to exactly the value stored as commit frontier; the index recovery walk ends only at a synced snapshot; after a failed fsync the file offset is rewound before the flushed-bytes counter is reset; fsync wrappers re-checked under darwin/windows/freebsd/386/arm64 in the thorough tier.",
+ "C05": "Also: keys/prefixes/bounds kept in read-set records are private copies; a found and a not-found answer of each validation read is compared with the recorded one before validation moves on; the indexing wait before validation is never lower than the precommit frontier.",
+ "C06": "Also: handlers that pre-check the index and then commit a write-only transaction hold the exclusive database lock; all reads of one response go through one snapshot; precommitted transactions are served only where asked for.",
+ "C07": "Also: the precommit buffer is addressed with T-committedTxID-1 at every id-addressed readAhead site (the replica's acknowledged state); the primary validates the replica's precommitted state before counting its acknowledgement; discard never crosses the durable watermark.",
+ "C08": "Also: the sizes recovered at open come from the last commit-log entry, never from the physical length of the payload/digest log.",
+ "C09": "Also: bounds obligations of the tx-record decoders (shared with C16) and the recovery walk of the index.",
+ "C10": "Also: a leaf value built as a copy carries every field (history pointers); the ts file written beside a compaction dump carries the dumped snapshot's Ts.",
+ "C12": "Also: the per-transaction catalog clone shares no map or slice with the cached catalog; the persisted column flags byte accumulates NOT NULL / AUTO_INCREMENT / HAS_DEFAULT; index entries are re-used only for the same row version; DDL commits invalidate the catalog cache.",
+ "C13": "Also: the result of every SQLTx.Commit call is consumed (a failed COMMIT is never reported as success); the catalog clone is deep; own writes are recorded against the latest write.",
+ "C14": "Also: every catalog loader with a copy mode re-writes what it loads into the copy transaction; the forward walk of TruncateUptoTx covers the committed frontier; the first chunk kept by DiscardUpto is the one holding the offset.",
+ "C15": "Also: within a decoder the cursor advances by exactly what was read at it; length limits use the same comparison on both sides; timestamps are normalised where they enter the engine; metadata converters return nil only for nil.",
+ "C16": "Also: every make([]T, n) whose n derives from a decoded 32/64-bit integer is dominated by a comparison on it; a decoded uint64 converted to int is range-checked; chunk-receiver loops cannot return to Recv() after io.EOF without consulting the recorded flag; the chunk size read back from a chunk header is validated; proof-term slices are in scope for the proof verifiers.",
+ "C17": "Also: the file is read only below fileOffset (E6 obligation); a rewind must be persistent (two known findings: no truncation, later chunk files kept).",
+ "C18": "Also: statements sent to a session transaction pass the gate of SQLExec/SQLQuery on the session's database, which must be the transaction's database; user-record changes drop the cached record unconditionally; field updates of user/permission records are effective (no lost write to a range copy); token validation includes the expiry claim.",
+}
+for k, v in EXTRA.items():
+    if k in CLAIMED:
+        CLAIMED[k]['text'] = CLAIMED[k]['text'].rstrip() + " " + v
+
 for p in props:
     pid = p['id']
     if pid in CLAIMED:
